@@ -24,6 +24,7 @@ import BumpProof.Lemmas.StrCstr
 import BumpProof.Lemmas.StrRun
 import BumpProof.Lemmas.StrRefine
 import BumpProof.Lemmas.StrCtor
+import BumpProof.Lemmas.StrExtra
 
 namespace C09
 open Str
@@ -563,6 +564,60 @@ theorem no_realloc_while_promise_suffices (al : Alloc) (ts : List (List Char)) (
 
 example : (withCapacity .exact 5).cap = 5 := by decide
 example : ∃ s', push .exact (State.ofBytes (encode ['a']) 1) 'é' = .ok () s' ∧ s'.cap = 8 := ⟨_, rfl, by decide⟩
+
+/-! ## extend_zeroed, fmt::Write, Extend, shrink_to / shrink_to_fit, consuming conversions -/
+
+/-- `extend_zeroed(n)` / `try_extend_zeroed(n)`: appends `n` NUL characters; a fixed string without
+    the room reports the allocation error and is unchanged (bytes AND length) -/
+theorem extend_zeroed_refines (al : Alloc) (s : State) (n : Nat) (cs : List Char) (h : Holds s cs) :
+    GrowsToText al s n (extendZeroed al s n) (cs ++ List.replicate n (Char.ofNat 0)) := extendZeroed_spec al s n cs h
+
+theorem extend_zeroed_valid (al : Alloc) (s : State) (n : Nat) (h : WF s) : AllWF (extendZeroed al s n) := by
+  obtain ⟨cs, hc⟩ := (wf_iff s).1 h
+  exact (extendZeroed_spec al s n cs hc).allWF h
+
+/-- `fmt::Write::write_str` / `write_char` are `try_push_str` / `try_push` (so `push_str_refines`,
+    `push_refines` and their validity theorems apply verbatim) -/
+theorem write_str_eq (al : Alloc) (s : State) (str : Bytes) : writeStr al s str = pushStr al s str := rfl
+theorem write_char_eq (al : Alloc) (s : State) (c : Char) : writeChar al s c = push al s c := rfl
+
+/-- `Extend<char>` / `Extend<&char>`: everything is appended, or — only a FIXED string — the
+    operation stops with an allocation error after the first `k` characters (or before any), and
+    the string holds exactly the old contents plus those `k` characters: valid UTF-8 either way -/
+theorem extend_chars_refines (al : Alloc) (xs : List Char) (s : State) (cs : List Char) (h : Holds s cs) :
+    ∃ k s', ((extendChars al s xs = .ok () s' ∧ k = xs.length) ∨
+             (extendChars al s xs = .err s' ∧ al.isFixed = true ∧ (k < xs.length ∨ s' = s))) ∧
+            Holds s' (cs ++ xs.take k) := extendChars_spec al xs s cs h
+
+theorem extend_chars_growable (al : Alloc) (hal : al.isFixed = false) (xs : List Char) (s : State) (cs : List Char)
+    (h : Holds s cs) : ∃ s', extendChars al s xs = .ok () s' ∧ Holds s' (cs ++ xs) :=
+  extendChars_growable al hal xs s cs h
+
+/-- `Extend<&str>` / repeated `+=` -/
+theorem extend_strs_refines (al : Alloc) (ps : List (List Char)) (s : State) (cs : List Char) (h : Holds s cs) :
+    ∃ k s', ((extendStrs al s (ps.map encode) = .ok () s' ∧ k = ps.length) ∨
+             (extendStrs al s (ps.map encode) = .err s' ∧ al.isFixed = true ∧ k < ps.length)) ∧
+            Holds s' (cs ++ (ps.take k).flatten) := extendStrs_spec al ps s cs h
+
+/-- `shrink_to(n)`, for BOTH answers of the arena: the contents and the length never change,
+    `len ≤ capacity` still holds, the capacity is either unchanged or exactly `max(len, n)` (only if
+    the arena shrank and that is smaller), never grows and never drops below `min(n, old capacity)` -/
+theorem shrink_to_refines (s : State) (n : Nat) (arenaShrinks : Bool) (cs : List Char) (h : Holds s cs) :
+    ∃ s', shrinkTo s n arenaShrinks = .ok () s' ∧ Holds s' cs ∧ s'.len = s.len ∧
+      (s'.cap = s.cap ∨ (arenaShrinks = true ∧ max s.len n < s.cap ∧ s'.cap = max s.len n)) ∧
+      s'.cap ≤ s.cap ∧ min n s.cap ≤ s'.cap := shrinkTo_spec s n arenaShrinks cs h
+
+/-- `shrink_to_fit` is `shrink_to(0)` -/
+theorem shrink_to_fit_eq (s : State) (b : Bool) : shrinkToFit s b = shrinkTo s 0 b := shrinkToFit_eq s b
+
+/-- `into_str` / `into_boxed_str` / `into_fixed_string` / `into_bytes` / `into_string` hand out
+    exactly the contents (whether or not the `shrink_to_fit` inside `into_boxed_str` succeeds) -/
+theorem into_bytes_refines (s : State) (b : Bool) (cs : List Char) (h : Holds s cs) : intoBytes s b = encode cs :=
+  intoBytes_eq s b cs h
+
+example : shrinkTo (State.ofBytes (encode ['a', 'é']) 10) 5 true = .ok () { buf := [0x61, 0xC3, 0xA9, 0, 0], len := 3 } := by decide
+example : extendChars .fixed (State.ofBytes (encode ['a']) 4) ['b', '€', 'c'] =
+    .err { buf := [0x61, 0x62, 0, 0], len := 2 } := by decide
 
 /-! ## checked constructors -/
 
